@@ -56,6 +56,13 @@ func genC16(r *Rng, k int) *RunSpec {
 		DocSpec{st.OCol1, mustJSON(J{"@context": asCtx, "type": "OrderedCollection", "id": st.OCol1, "orderedItems": []string{st.Erin, st.Dave}})},
 		DocSpec{dupCol, mustJSON(J{"@context": asCtx, "type": "OrderedCollection", "id": dupCol, "orderedItems": []string{st.Dave, st.Erin, st.Dave, objs[0], st.Dave}})},
 	)
+	if r.Intn(3) == 0 {
+		// collections whose entries are kept as embedded values, not bare references: what stays, stays as it is
+		keep := J{"type": "Note", "id": "https://" + hostA + "/o/kept", "content": "an entry with members", "summary": "kept"}
+		a.Docs = append(a.Docs,
+			DocSpec{st.Col1, mustJSON(J{"@context": asCtx, "type": "Collection", "id": st.Col1, "items": []interface{}{keep, st.Dave, J{"type": "Person", "id": st.Erin, "name": "erin"}}})},
+			DocSpec{st.OCol1, mustJSON(J{"@context": asCtx, "type": "OrderedCollection", "id": st.OCol1, "orderedItems": []interface{}{st.Erin, keep, st.Dave}})})
+	}
 	if r.Bool() { // otherwise the liked collection has no items member yet
 		before := []string{"https://" + hostR + "/n/liked-before"}
 		if r.Bool() {
@@ -136,8 +143,10 @@ func genC16(r *Rng, k int) *RunSpec {
 		} else {
 			body["object"] = pick13([]string{st.Dave, st.Erin, objs[0]})
 		}
+		linkify(r, body)
 	case "Like":
 		body["object"] = pick13([]string{st.RNote, objs[0], objs[1], "https://" + hostR + "/n/78"})
+		linkify(r, body)
 	case "Block":
 		body["object"] = pick13([]string{st.Dave, st.Erin})
 	}
@@ -160,6 +169,17 @@ func genC16(r *Rng, k int) *RunSpec {
 	sp.Gen = fmt.Sprintf("c16/%d/%s", k, typ)
 	sp.MapSeed = r.U64() | 1
 	return sp
+}
+
+// linkify: now and then an object is given as an embedded Link-derived value that has an id of its own and points
+// elsewhere (a bookmark): it is identified by its id.
+func linkify(r *Rng, body J) {
+	os, _ := body["object"].([]interface{})
+	for i, o := range os {
+		if id, ok := o.(string); ok && r.Intn(6) == 0 {
+			os[i] = J{"type": Pick(r, []string{"Link", "Mention"}), "id": id, "href": "https://" + hostR + "/elsewhere/" + fmt.Sprint(i)}
+		}
+	}
 }
 
 func (s *ServerSpec) docOf(id string) []byte {
@@ -354,6 +374,20 @@ func oracleC16(c *DriveCtx, res *Result) {
 			}
 			if !equalStrs(now, want) {
 				s.violate("C16", strings.ToLower(typ)+"-target", typ, fmt.Sprintf("%s holds %v after %s of %v; expected %v", tid, now, typ, oids, want))
+			} else {
+				// the entries that stay are the entries that were there (an embedded value keeps its members)
+				was := map[string]interface{}{}
+				for _, e := range collEntries(before[tid]) {
+					if _, dup := was[idOf(e)]; !dup {
+						was[idOf(e)] = e
+					}
+				}
+				for _, e := range collEntries(after[tid]) {
+					if w, ok := was[idOf(e)]; ok && !sameDoc(w, e) {
+						s.violate("C16", strings.ToLower(typ)+"-entry-altered", typ, fmt.Sprintf("entry %s of %s was %s and is %s after the %s", idOf(e), tid, canonJSON(w), canonJSON(e), typ))
+						break
+					}
+				}
 			}
 		}
 	case "Like":
@@ -400,4 +434,15 @@ func init() {
 		Oracle: oracleC16,
 		Assumptions: []string{"'removes the members supplied as JSON null' is read as: null-valued members of the activity's object (the quantifier's 'null-valued members' of partial updates); members that are null only at activity level are not judged"},
 	})
+}
+
+func collEntries(raw string) []interface{} {
+	m, err := parseJ([]byte(raw))
+	if err != nil {
+		return nil
+	}
+	if v, ok := m["orderedItems"]; ok {
+		return aslist(v)
+	}
+	return aslist(m["items"])
 }
